@@ -35,6 +35,14 @@ func negOp(op token.Token) token.Token {
 // AsCmp interprets a condition as a comparison that holds.
 func AsCmp(c Cond) (Cmp, bool) {
 	c = Normalize(c)
+	if call, isCall := c.V.(*ssa.Call); isCall && len(call.Call.Args) == 2 && StdCallee(&call.Call) == "errors.Is" {
+		// errors.Is(err, Sentinel) reads as err == Sentinel (the library's sentinels are plain errors.New values that
+		// are never wrapped; its negation implies err != Sentinel in any case)
+		if c.True {
+			return Cmp{token.EQL, call.Call.Args[0], call.Call.Args[1], c.If}, true
+		}
+		return Cmp{token.NEQ, call.Call.Args[0], call.Call.Args[1], c.If}, true
+	}
 	b, ok := c.V.(*ssa.BinOp)
 	if !ok {
 		return Cmp{}, false
